@@ -33,7 +33,7 @@ def enumerate_states(tier):
         # visibility is independent of the other options: exporting mocks must not widen the trait
         progs.append(dict(mode="fn", req=req, itemvis="pub", opts="export"))
         progs.append(dict(mode="fn", req=req, itemvis="", opts="export_mock"))
-    for req in ["", "pub", "pub(crate)", "pub(in crate::KEY)"]:
+    for req in ["", "pub", "pub(crate)", "pub(in crate::KEY)", "pub(self)", "pub(super)", "pub(in super::super)"]:
         for modvis in ["", "pub"]:
             for fnvis in ["pub", "pub(crate)"]:
                 progs.append(dict(mode="mod", req=req, itemvis=modvis, fnvis=fnvis))
@@ -123,6 +123,8 @@ def want_vis_tokens(s):
     """(visibility of the emitted trait, visibility of the re-export or None)"""
     req = s["req"].replace("KEY", s["key"])
     if s["mode"] == "mod":
+        if "self" in req or "super" in req:
+            return (None, req)      # relative to the attribute: how it is spelled INSIDE the module is the macro's business (the probes decide)
         return (req or "pub(super)", req)
     return (req, None)
 
@@ -210,7 +212,7 @@ def evaluate(states, report, tier):
             wt, wu = want_vis_tokens(s)
             if tr is not None:
                 obs["trait_vis"] = tr["vis"].replace(" ", "")
-                if obs["trait_vis"] != wt.replace(" ", ""):
+                if wt is not None and obs["trait_vis"] != wt.replace(" ", ""):
                     problems.append(("trait-visibility-token", "emitted `%s trait %s`, requested `%s`" % (tr["vis"], name, wt)))
             if wu is not None and uses != [wu.replace(" ", "")]:
                 problems.append(("re-export-visibility-token", "re-exports %s, requested `%s`" % (uses, wu)))
